@@ -1,9 +1,12 @@
 import MosnVerif.Lemmas.Headers
+import MosnVerif.Lemmas.Retry
 /-!
 # C17 — route actions, timeouts and the retry policy are applied exactly as configured (property theorems only)
 
-Part 1 (this file, built first): header mutations at the three levels, and the effective timeout.
-The retry-budget / attempts part lives on the downstream machine (added by the proxy-core slice).
+Part 1: header mutations at the three levels, and the effective timeout (`Model/Headers.lean`).
+Part 2 (namespace `Retry` below): the retry policy on the attempt machine of `Model/Retry.lean` (regenerated retry decision
+inside `onUpstreamHeaders` / `onUpstreamReset` / `doRetry` / the timers), local replies of redirect / direct-response routes,
+prefix rewrite and redirect assembly.
 -/
 namespace MosnVerif.Props.C17
 open MosnVerif.Model.Headers MosnVerif.Gen.HeaderMutation MosnVerif.Gen.ProxyTimeout
@@ -97,5 +100,233 @@ example : specOps exLevels = [.add ⟨"x", "1", true⟩, .remove "y", .add ⟨"x
 #guard get (finalize requestOrder exLevels [("x", "0"), ("y", "9")]) "x" == some "0,1,2"
 #guard get (finalize requestOrder exLevels [("x", "0"), ("y", "9")]) "y" == some "3"
 #guard parseProxyTimeout (fun s => s.toInt?) 0 0 true 5000000000 1000000000 none (some "300") (some "abc") none == (300000000, 0)
+
+/-! ## Part 2 — retry policy, local replies, rewrite, redirect -/
+section Retry
+open MosnVerif.Model.Retry MosnVerif.Gen.RetryState MosnVerif.Gen.RouteAction
+
+def exPolicy' : Policy := { retryOn := true, numRetries := 2, codes := [503], tryTimeout := true, disable := false }
+
+/-- the budget the code computes from the configured `num_retries` (regenerated `newRetryState`) is `max 3 num_retries`:
+a configured value below 3 is raised to 3 -/
+theorem budget_floor (n : Nat) : initialBudget (n : Int) = ((max 3 n : Nat) : Int) := initialBudget_eq n
+
+/-- **attempts_bounded**: for EVERY retry policy (retry_on, num_retries, status-code list, per-try timeout, disable flag), every
+first host-selection result and EVERY sequence of per-attempt outcomes and oracle answers, the number of `pool.NewStream`
+calls (admitted or refused) is at most one plus the effective retry budget `max 3 num_retries`. -/
+theorem attempts_bounded (p : Policy) (host0 : Option Nat) (ls : List Label) :
+    attemptCount (run p host0 ls).trace ≤ 1 + max 3 p.numRetries := by
+  have h := run_good p host0 ls
+  have h1 := h.rem_nonneg
+  have h2 := h.bound
+  rw [h.count]
+  unfold budget at h2
+  omega
+
+/-- the regenerated retry decision on response headers is exactly the configured condition -/
+theorem decision_on_response (p : Policy) (c : Nat) :
+    doRetryCheck true p.disable p.retryOn false (c : Int) (codesInt p) "" = retryable p (.resp c) := check_resp p c
+
+/-- the regenerated retry decision on a reset / refused stream / timer is exactly the configured condition, whatever status an
+earlier attempt left in the status variable -/
+theorem decision_on_reset (p : Policy) (o : Outcome) (staleAbsent : Bool) (staleCode : Int) (ho : ∀ c, o ≠ .resp c) :
+    doRetryCheck true p.disable p.retryOn staleAbsent staleCode (codesInt p) (reasonOf o) = retryable p o :=
+  check_reset p o staleAbsent staleCode ho
+
+/-- every trace of the machine is accepted by the declarative acceptor `traceOk` (which the driver also evaluates on the
+implementation's trace) -/
+theorem trace_accepted (p : Policy) (host0 : Option Nat) (ls : List Label) : traceOk p (run p host0 ls).trace = true := by
+  obtain ⟨c, hc, _⟩ := (run_good p host0 ls).acc
+  simp [traceOk, hc]
+
+/-- **retry_only_if**: wherever a host selection for attempt `k` (hence an attempt) occurs in a trace, `k` is the number of attempts
+made so far, and either nothing happened before (the first attempt) or the event immediately before it is an outcome of the
+outstanding attempt that is retryable under the configured policy — and before that outcome no downstream response had started,
+the global timeout had not fired and the worker had not left.  (`retryable p .global = false`, so the retryable outcome itself is
+never the global timeout.) -/
+theorem retry_only_if (p : Policy) (host0 : Option Nat) (ls : List Label) (pre post : List Ev) (k : Nat)
+    (h : (run p host0 ls).trace = pre ++ [.choose k] ++ post) :
+    k = attemptCount pre ∧
+    (pre = [] ∨ ∃ pre' o, pre = pre' ++ [.outcome o] ∧ retryable p o = true ∧ ∀ e ∈ pre', ends e = false) := by
+  obtain ⟨c, hc, _⟩ := (run_good p host0 ls).acc
+  rw [h] at hc
+  obtain ⟨c1, c2, h1, h2⟩ := scan_split p _ _ _ _ _ hc
+  simp only [scanStep] at h2
+  split at h2
+  · rename_i hk
+    obtain ⟨hk1, hk2, hk3, hk4⟩ := hk
+    have hn := scan_n p _ _ _ h1
+    refine ⟨by rw [hk1, hn]; simp [scanInit], ?_⟩
+    rcases scan_permit p _ _ _ h1 hk2 with ⟨hnil, _⟩ | ⟨t', o, c', ht, hr, hs, hd⟩
+    · exact Or.inl hnil
+    · exact Or.inr ⟨t', o, ht, hr, (scan_alive p _ _ _ hs hd).2⟩
+  · simp at h2
+
+/-- **fresh_host**: every `pool.NewStream` of attempt `k` is immediately preceded by a host selection made for attempt `k`
+(each retry re-runs host selection; no attempt reuses the previous selection) -/
+theorem fresh_host (p : Policy) (host0 : Option Nat) (ls : List Label) (pre post : List Ev) (k h : Nat)
+    (ht : (run p host0 ls).trace = pre ++ [.attempt k h] ++ post) :
+    ∃ pre', pre = pre' ++ [.choose k] := by
+  obtain ⟨c, hc, _⟩ := (run_good p host0 ls).acc
+  rw [ht] at hc
+  obtain ⟨c1, c2, h1, h2⟩ := scan_split p _ _ _ _ _ hc
+  simp only [scanStep] at h2
+  split at h2
+  · rename_i hk
+    rcases scan_chosen p _ _ _ h1 hk.2 with ⟨_, hinit⟩ | ⟨t', ht'⟩
+    · simp [scanInit] at hinit
+    · exact ⟨t', by rw [hk.1]; exact ht'⟩
+  · simp at h2
+
+/-- no attempt after the response started / the global timeout / the worker left: once an ending event is in the trace, no
+host selection and no attempt follows -/
+theorem nothing_after_end (p : Policy) (host0 : Option Nat) (ls : List Label) (pre post : List Ev) (e e' : Ev)
+    (h : (run p host0 ls).trace = pre ++ [e] ++ post) (he : ends e = true) (hm : e' ∈ post) :
+    (∀ k, e' ≠ .choose k) ∧ (∀ k x, e' ≠ .attempt k x) := by
+  obtain ⟨pa, pb, rfl⟩ := List.append_of_mem hm
+  constructor
+  · intro k hk; subst hk
+    have h' : (run p host0 ls).trace = (pre ++ [e] ++ pa) ++ [.choose k] ++ pb := by rw [h]; simp
+    obtain ⟨_, hr⟩ := retry_only_if p host0 ls _ _ _ h'
+    rcases hr with hnil | ⟨t', o, ht, hro, hall⟩
+    · simp at hnil
+    · have hin : e ∈ pre ++ [e] ++ pa := by simp
+      rw [ht] at hin
+      rcases List.mem_append.mp hin with hin | hin
+      · rw [hall e hin] at he; simp at he
+      · simp at hin; subst hin
+        cases o <;> simp_all [ends, retryable]
+  · intro k x hk; subst hk
+    have h' : (run p host0 ls).trace = (pre ++ [e] ++ pa) ++ [.attempt k x] ++ pb := by rw [h]; simp
+    obtain ⟨t', ht'⟩ := fresh_host p host0 ls _ _ _ _ h'
+    have h'' : (run p host0 ls).trace = t' ++ [.choose k] ++ ([.attempt k x] ++ pb) := by rw [h', ht']; simp
+    obtain ⟨_, hr⟩ := retry_only_if p host0 ls _ _ _ h''
+    have hin : e ∈ t' ++ [.choose k] := by rw [← ht']; simp
+    rcases List.mem_append.mp hin with hin | hin
+    · rcases hr with hnil | ⟨t2, o, ht, hro, hall⟩
+      · subst hnil; simp at hin
+      · rw [ht] at hin
+        rcases List.mem_append.mp hin with hin | hin
+        · rw [hall e hin] at he; simp at he
+        · simp at hin; subst hin
+          cases o <;> simp_all [ends, retryable]
+    · simp at hin; subst hin; simp [ends] at he
+
+/-- **retry_when_configured** (the converse of `retry_only_if`): whenever the outstanding attempt ends in an outcome that is retryable
+under the configured policy, budget is left, the `Retries` breaker admits, a healthy host exists and the worker has a pass left,
+the request IS retried: exactly one host selection and one new attempt on the selected host follow, and one unit of budget is used -/
+theorem retry_when_configured (p : Policy) (s : St) (l : Label) (h : Nat)
+    (hlive : s.live = true) (hrs : s.hasRS = true) (hst : s.started = false) (hrem : s.remaining ≠ 0) (hloops : s.loops ≠ 0)
+    (hret : retryable p l.o = true) (hcc : l.canCreate = true) (hh : l.host = some h)
+    (hpt : l.o = .perTry → p.tryTimeout = true) :
+    (step p s l).trace = s.trace ++ [.outcome l.o, .choose s.attempts, .attempt s.attempts h] ∧
+    (step p s l).attempts = s.attempts + 1 ∧ (step p s l).remaining = s.remaining - 1 :=
+  step_retries p s l h hlive hrs hst hrem hloops hret hcc hh hpt
+
+example : (start exPolicy' (some 0)).live = true ∧ (start exPolicy' (some 0)).hasRS = true ∧ (start exPolicy' (some 0)).started = false ∧
+    (start exPolicy' (some 0)).remaining ≠ 0 ∧ (start exPolicy' (some 0)).loops ≠ 0 ∧ retryable exPolicy' (.resp 503) = true := by decide
+
+/-- never after a response has started: once the downstream response has started (and no attempt is outstanding), whatever
+arrives — a late reset of the answered upstream stream, a timer, a connection event — changes nothing: no retry decision is
+taken and no upstream event is produced (the regenerated guard of `onUpstreamReset` contains `!downstreamResponseStarted`) -/
+theorem started_is_final (p : Policy) (s : St) (l : Label) (h1 : s.live = false) (h2 : s.started = true) : step p s l = s := by
+  unfold step
+  simp [h1, h2, resetGuard_started]
+
+/-- **local_reply_no_upstream**: a route with a direct response answers with exactly the configured status and body, a route
+with a redirect (and no direct response) with the configured code and the assembled location — and in both cases the exchange
+contains that one reply and NO host selection and NO upstream attempt, for every policy, oracle and outcome sequence
+(branch order of `chooseHost` regenerated). -/
+theorem local_reply_no_upstream (r : RouteFacts) (q : Req) (p : Policy) (host0 : Option Nat) (ls : List Label) (hr : r.hasRoute = true) :
+    (∀ d, r.direct = some d →
+        localReply r q = some { status := d.status, location := none, body := d.body } ∧ exchange r q p host0 ls = [.reply d.status]) ∧
+    (∀ rd, r.direct = none → r.redirect = some rd →
+        localReply r q = some { status := rd.code, location := some (redirectLocation rd q), body := "" } ∧
+        exchange r q p host0 ls = [.reply rd.code]) := by
+  have ho : chooseHostOrder = [.noRoute, .direct, .redirect, .noRule, .noSnapshot, .pool] := by decide
+  constructor
+  · intro d hd
+    have : localReply r q = some { status := d.status, location := none, body := d.body } := by
+      simp [localReply, chooseBranch, ho, List.find?, branchHolds, hr, hd]
+    exact ⟨this, by simp [exchange, this]⟩
+  · intro rd hd hrd
+    have : localReply r q = some { status := rd.code, location := some (redirectLocation rd q), body := "" } := by
+      simp [localReply, chooseBranch, ho, List.find?, branchHolds, hr, hd, hrd]
+    exact ⟨this, by simp [exchange, this]⟩
+
+/-- a local reply contains no upstream attempt -/
+theorem local_reply_attempts (r : RouteFacts) (q : Req) (p : Policy) (host0 : Option Nat) (ls : List Label) (lr : LocalReply)
+    (h : localReply r q = some lr) : attemptCount (exchange r q p host0 ls) = 0 := by
+  simp [exchange, h, attemptCount, isAttempt]
+
+/-- **rewrite_spec** (prefix rewrite): when the path starts with the matched prefix the new path is `prefix_rewrite ++ rest`;
+otherwise the prefix branch leaves the path alone (regenerated `finalizePathHeader` prefix branch) -/
+theorem rewrite_spec (pr m rest : List Char) : prefixRewritePath pr m (m ++ rest) = some (pr ++ rest) := by
+  simp [prefixRewritePath]
+
+theorem rewrite_spec_no_prefix (pr m path : List Char) (h : m.isPrefixOf path = false) : prefixRewritePath pr m path = none := by
+  simp [prefixRewritePath, h]
+
+/-- `finalizePathHeader` as a whole: nothing configured or empty path ⇒ untouched and no original-path header; prefix rewrite
+configured and the path starts with the matched prefix ⇒ rewritten and the original path recorded (prefix rewrite wins over
+regex rewrite) -/
+theorem rewrite_prefix_records_original (c : RewriteCfg) (m path : String) (rest : List Char) (re : String → String)
+    (hp : c.prefixRewrite ≠ "") (hne : path ≠ "") (hpath : path.toList = m.toList ++ rest) :
+    finalizePath c m path re = (String.ofList (c.prefixRewrite.toList ++ rest), some path) := by
+  have hl : c.prefixRewrite.length ≠ 0 := by
+    intro h; apply hp; exact String.length_eq_zero_iff.mp h
+  have hd : rewriteDisabled c.prefixRewrite c.regex = false := by
+    simp [rewriteDisabled, hl]
+  simp [finalizePath, hd, hne, hl, hpath, prefixRewritePath]
+
+theorem rewrite_none_configured (m path : String) (re : String → String) :
+    finalizePath { prefixRewrite := "", regex := "" } m path re = (path, none) := by
+  simp [finalizePath, rewriteDisabled]
+
+/-- **redirect_spec**: scheme, host and path of the location default to the request's own when not configured (regenerated
+`getStringOr`); with an unchanged scheme the host is used as is -/
+theorem redirect_spec_defaults (s d : String) : getStringOr s d = if s = "" then d else s := by
+  unfold getStringOr
+  by_cases h : s = ""
+  · subst h; simp
+  · have : s.length ≠ 0 := fun hl => h (String.length_eq_zero_iff.mp hl)
+    simp [h, this]
+
+theorem redirect_spec_same_scheme (rd : Redirect) (q : Req) (hs : rd.scheme = "" ∨ rd.scheme = q.scheme) :
+    redirectLocation rd q =
+      urlString q.scheme (if rd.host = "" then q.host else rd.host) (if rd.path = "" then q.path else rd.path) q.query := by
+  have : getStringOr rd.scheme q.scheme = q.scheme := by
+    rw [redirect_spec_defaults]; rcases hs with h | h <;> simp [h]
+  simp [redirectLocation, this, redirect_spec_defaults]
+
+/-- the port is dropped exactly for `host:443` when redirecting to http and `host:80` when redirecting to https -/
+theorem redirect_port_rule (scheme port : String) :
+    stripPort scheme port = ((scheme = "http" ∧ port = "443") ∨ (scheme = "https" ∧ port = "80")) := by
+  simp [stripPort]
+
+-- non-vacuity / tests (evaluated): a policy with 2 retries on 503, three hosts round-robin
+def exPolicy : Policy := { retryOn := true, numRetries := 2, codes := [503], tryTimeout := true, disable := false }
+def exLabels : List Label :=
+  [⟨.resp 503, true, some 1⟩, ⟨.connFail, true, some 2⟩, ⟨.remoteReset, true, some 0⟩, ⟨.resp 200, true, some 1⟩]
+example : (run exPolicy (some 0) exLabels).trace =
+    [.choose 0, .attempt 0 0, .outcome (.resp 503), .choose 1, .attempt 1 1, .outcome .connFail, .choose 2, .attempt 2 2,
+     .outcome .remoteReset, .reply 502] := by decide
+example : (run exPolicy (some 0) exLabels).trace = [.choose 0, .attempt 0 0, .outcome (.resp 503)] ++ [.choose 1] ++
+    [.attempt 1 1, .outcome .connFail, .choose 2, .attempt 2 2, .outcome .remoteReset, .reply 502] := by decide
+-- the budget is max 3 num_retries: with num_retries = 0 and retry_on, four attempts on four 503s
+#guard attemptCount (run { exPolicy with numRetries := 0, codes := [] } (some 0) (List.replicate 9 ⟨.resp 503, true, some 1⟩)).trace == 4
+-- the acceptor rejects a retry after a non-retryable outcome, after a reply, and an attempt without host selection
+#guard traceOk exPolicy [.choose 0, .attempt 0 0, .outcome .remoteReset, .choose 1, .attempt 1 1] == false
+#guard traceOk exPolicy [.choose 0, .attempt 0 0, .outcome (.resp 503), .reply 503, .choose 1, .attempt 1 1] == false
+#guard traceOk exPolicy [.choose 0, .attempt 0 0, .outcome (.resp 503), .attempt 1 0] == false
+#guard traceOk exPolicy [.choose 0, .attempt 0 0, .outcome .global, .choose 1, .attempt 1 1] == false
+#guard traceOk exPolicy [.choose 0, .attempt 0 0, .outcome (.resp 503), .choose 1, .attempt 1 1, .outcome (.resp 200), .reply 200]
+example : localReply { hasRoute := true, direct := some ⟨418, "teapot"⟩, redirect := some ⟨301, "https", "", "/n"⟩, hasRule := true, hasSnapshot := true }
+    ⟨"http", "a:80", "/x", "k=v"⟩ = some ⟨418, none, "teapot"⟩ := by decide
+#guard redirectLocation ⟨301, "https", "", "/n"⟩ ⟨"http", "a:80", "/x", "k=v"⟩ == "https://a/n?k=v"
+#guard redirectLocation ⟨301, "", "b", ""⟩ ⟨"http", "a:80", "/x", ""⟩ == "http://b/x"
+#guard finalizePath ⟨"/new", ""⟩ "/old" "/old/rest" id == ("/new/rest", some "/old/rest")
+
+end Retry
 
 end MosnVerif.Props.C17
